@@ -79,7 +79,7 @@ def run_case(pid, case, repo):
         shutil.rmtree(D, ignore_errors=True)
 
 
-def run(pid, repo, baseline_viol_keys, jobs=5):
+def run(pid, repo, baseline_viol_keys, jobs=8):
     cases = cases_for(pid)
     out = []
     if not cases:
